@@ -222,7 +222,8 @@ class HistoryMonitor(Monitor):
             self.check_pending(ctx)
             self.check_pending_fresh(ctx)
             self._gets = getattr(self, "_gets", 0) + 1
-            if self._gets % 4 == 1:
+            # every 4th get; every 32nd once the scheduler holds many (mostly stale) entries - reading them is O(n)
+            if self._gets % (4 if getattr(self, "_scheduler_size", 0) < 300 else 32) == 1:
                 self.check_scheduler_contents(ctx)
             if getattr(self, "_occupancy_checked_at", None) != ctx.commits:
                 self.check_occupancy(ctx)
@@ -410,7 +411,9 @@ class HistoryMonitor(Monitor):
                 if not math.isinf(t[0]):
                     alive[(id(element.event_handler), t)] += 1
         elif hasattr(sched, "_minimal_valid_counter"):
-            for q, r, handler, counter in sched.__getstate__()["heap_entries"]:
+            entries = sched.__getstate__()["heap_entries"]
+            self._scheduler_size = len(entries)
+            for q, r, handler, counter in entries:
                 if counter == sched._minimal_valid_counter.get(handler, 0):
                     alive[(id(handler), (q, r))] += 1
         else:
@@ -698,6 +701,9 @@ class HistoryMonitor(Monitor):
             self.check_written_state(ctx, args, t, name)
         elif self.kind.get(id(h)) == "end_of_run":
             self.check_written_state(ctx, args, t, name)
+        elif info is not None and self.kind.get(id(h)) in ("sampling", "dumping"):
+            self.verdict("C17", "written-to-wrong-output", "the event of the handler connected to output handler %r at "
+                         "%r was written to output handler %r" % (info["output"], t, name), ctx)
 
     def check_written_state(self, ctx, args, t, name):
         if not args or not isinstance(args[0], (list, tuple)):
